@@ -9,7 +9,9 @@ META = dict(
            "(thorough), tolerances symbolic positive, Jacobian modes {exact callable + linear solver returning fresh symbols, numerical 2-point Jacobian, "
            "reused LU (inexact Newton)}: every path through the real loop is explored.  fixed_point_iteration / fixed_point_iteration_with_momentum: arbitrary "
            "map, dimension 1..2, max_iter <= 3.  approx_fprime: quadratic scalar and linear matrix-valued functions with symbolic coefficients, 2-point and "
-           "3-point.  Outside: 'cs' (complex arithmetic on symbolic scalars), ill-conditioning (a float phenomenon).",
+           "3-point.  Non-finite residuals: the norm of the scaled residual may be NaN at any evaluation (one symbolic "
+           "decision per call, IEEE comparison semantics: every ordered comparison with NaN is false): success is never reported / no result returned on a NaN norm (fsolve and both fixed-point helpers).  "
+           "Outside: 'cs' (complex arithmetic on symbolic scalars), ill-conditioning (a float phenomenon), NaN / inf elsewhere than in the error norms.",
     assumptions=["linear solves return an arbitrary vector (the criterion under test does not depend on the Newton direction)",
                  "atol, rtol, eps > 0"],
     trusted_base=["path exploration covers all feasible outcomes of the convergence tests within the iteration bound"],
@@ -43,10 +45,78 @@ class Script:
         return self.h.vec(f"{self.tag}dx{k}_", self.n)
 
 
-def fsolve_contract(h, n=1, mode="exact", max_iter=2):
+class NanS:
+    """a scaled residual norm that may be NaN (non-finite residual): IEEE comparison semantics - every ordered comparison with a NaN is false.
+    Symbolic run: value = symbolic scalar, nan = symbolic boolean; float replay: a real float / float('nan')."""
+
+    def __init__(self, v, nan):
+        self.v, self.nan = v, nan
+
+    def __truediv__(self, o):
+        from symx.core import B
+        if isinstance(o, NanS):
+            return NanS(self.v / o.v, B.lift(self.nan) | B.lift(o.nan))
+        if isinstance(o, float) and o == float("inf"):
+            return NanS(0.0 * self.v, self.nan)
+        return NanS(self.v / o, self.nan)
+
+    def __rtruediv__(self, o):
+        return NanS(o / self.v, self.nan)
+
+    def _cmp(self, r):
+        from symx.core import B
+        return (~B.lift(self.nan)) & B.lift(r)
+
+    def __lt__(self, o):
+        return self._cmp(self.v < o)
+
+    def __le__(self, o):
+        return self._cmp(self.v <= o)
+
+    def __gt__(self, o):
+        return self._cmp(self.v > o)
+
+    def __ge__(self, o):
+        return self._cmp(self.v >= o)
+
+    def __format__(self, spec):
+        return "nan-able"
+
+
+def _nan_numpy(h, real_np, flags):
+    """numpy proxy for the fsolve module: linalg.norm may return NaN (one symbolic decision per call)"""
+    import types
+
+    class _NP(types.ModuleType):
+        def __getattr__(self, k):
+            return getattr(real_np, k)
+
+    class _LA(types.ModuleType):
+        def __getattr__(self, k):
+            return getattr(real_np.linalg, k)
+    npx, la = _NP("np"), _LA("la")
+
+    def norm(x, *a, **k):
+        flag = h.boolean(f"residual_is_nan_{len(flags)}")
+        flags.append(flag)
+        v = real_np.linalg.norm(x, *a, **k)
+        if h.sym:
+            return NanS(v, flag)
+        return float("nan") if flag else v
+    la.norm = norm
+    npx.linalg = la
+    return npx
+
+
+def fsolve_contract(h, n=1, mode="exact", max_iter=2, nan=False):
     import cardillo.math.fsolve as F
     from cardillo.solver import SolverOptions
     sc = Script(h, n, "")
+    flags = []
+    if nan:
+        # non-finite residuals: the norm of the scaled residual may be NaN at any evaluation
+        real_np = F.np
+        F.np = _nan_numpy(h, real_np, flags)
     atol, rtol = h.pos("atol"), h.pos("rtol")
 
     class ScriptLU:
@@ -66,8 +136,12 @@ def fsolve_contract(h, n=1, mode="exact", max_iter=2):
         kw = dict(jac=lambda x, *a: None, inexact=True)
     if mode == "numerical":
         F.csc_array = lambda a: a       # the numerical Jacobian only feeds the (scripted) linear solver
-    with h.capture() as cap:
-        res = F.fsolve(sc.fun, x0, options=opts, **kw)
+    try:
+        with h.capture() as cap:
+            res = F.fsolve(sc.fun, x0, options=opts, **kw)
+    finally:
+        if nan:
+            F.np = real_np
     # residual calls that count for the criterion: the first one and every one made by the loop itself (the numerical
     # Jacobian makes extra calls through the same wrapper)
     f0 = sc.calls[0][1]
@@ -83,6 +157,18 @@ def fsolve_contract(h, n=1, mode="exact", max_iter=2):
     # threshold is left undecided (rounding of sqrt(n)), everything else is decided exactly
     ssum = sum((f_last[i] / scale[i]) * (f_last[i] / scale[i]) for i in range(n))
     succ = bool(res.success)
+    if nan:
+        # the residual norm evaluated last is the one the verdict must be based on
+        last_nan = flags[-1]
+        if succ:
+            if h.sym:
+                from symx.core import B
+                h.holds("success is never reported for a non-finite (NaN) residual norm", ~B.lift(last_nan))
+            else:
+                h.holds("success is never reported for a non-finite (NaN) residual norm", not last_nan)
+        warned = any("not converged" in w for w in cap["warnings"])
+        h.holds("warns iff not converged", warned == (not succ))
+        return
     if succ:
         h.holds("success reported only if the scaled residual criterion holds at the returned point", ssum < n * (1 + 1e-12))
     else:
@@ -94,10 +180,14 @@ def fsolve_contract(h, n=1, mode="exact", max_iter=2):
     h.holds("function evaluations counted", int(res.nfev) == len(sc.calls))
 
 
-def fixed_point_contract(h, n=1, which="plain", max_iter=2, inplace=False):
+def fixed_point_contract(h, n=1, which="plain", max_iter=2, inplace=False, nan=False):
     import cardillo.solver.dual_stormer_verlet as D
     sc = Script(h, n, "")
     sc.inplace = inplace
+    flags = []
+    if nan:
+        real_np = D.np
+        D.np = _nan_numpy(h, real_np, flags)
     atol, rtol = h.pos("atol"), h.pos("rtol")
     x0 = h.vec("x0_", n)
     if inplace and h.sym:
@@ -108,7 +198,18 @@ def fixed_point_contract(h, n=1, which="plain", max_iter=2, inplace=False):
         x, nit, err = f(lambda x: sc.fun(x), x0, atol=atol, rtol=rtol, max_iter=max_iter)
     except (ValueError, RuntimeError) as e:
         raised = e
+    finally:
+        if nan:
+            D.np = real_np
     h.holds("number of map evaluations within the limit", len(sc.calls) <= max_iter)
+    if nan:
+        if raised is None:
+            if h.sym:
+                from symx.core import B
+                h.holds("a result is never returned on a non-finite (NaN) error norm", ~B.lift(flags[-1]))
+            else:
+                h.holds("a result is never returned on a non-finite (NaN) error norm", not flags[-1])
+        return
 
     def crit(xa, fa):
         s = 0.0
@@ -163,9 +264,15 @@ def cases(tier, seed):
                 if mode == "numerical" and (n == 2 and m > 2):
                     continue
                 cs.append(Case(f"fsolve/{mode}/n{n}/maxit{m}", fsolve_contract, dict(n=n, mode=mode, max_iter=m), timeout=T, max_paths=64, sentinel=False))
+                if n == 1:
+                    cs.append(Case(f"fsolve_nan/{mode}/n{n}/maxit{m}", fsolve_contract, dict(n=n, mode=mode, max_iter=m, nan=True), timeout=T, max_paths=128,
+                                   sentinel=False, crosscheck=False))
         for which in ("plain", "momentum"):
             for m in range(1, 4):
                 cs.append(Case(f"fixed_point/{which}/n{n}/maxit{m}", fixed_point_contract, dict(n=n, which=which, max_iter=m), timeout=T, max_paths=128, sentinel=False))
+            if n == 1:
+                cs.append(Case(f"fixed_point_nan/{which}/n{n}/maxit2", fixed_point_contract, dict(n=n, which=which, max_iter=2, nan=True), timeout=T, max_paths=128,
+                               sentinel=False, crosscheck=False))
             cs.append(Case(f"fixed_point/{which}/n{n}/maxit2/inplace_map", fixed_point_contract, dict(n=n, which=which, max_iter=2, inplace=True), timeout=T, max_paths=128, sentinel=False))
     for kind in ("quadratic", "matrix"):
         for method in ("2-point", "3-point"):
